@@ -68,10 +68,10 @@ def _scales_equal(got, want):
 # ----------------------------------------------------------------------------------------------- generators
 
 _SHAPES = [(1, 1), (1, 4), (4, 1), (2, 3), (3, 2), (1, 2), (2, 1), (3, 5), (5, 4), (4, 5), (2, 2), (3, 3), (5, 1), (1, 5)]
-_ISO = [1.0, 0.1, 0.05, 2.5, 0.3]
+_ISO = [1.0, 0.1, 0.05, 2.5, 0.3, 1.0 / 3.0, 0.2 / 3.0, float(np.float32(0.05)), 0.03125]   # incl. scales that no short decimal represents
 # clearly anisotropic and NEARLY isotropic pairs (differences 3e-7 .. 1e-5, far above the 1e-8 below which the library itself
 # calls two scales equal, Mask.pixel_scale): a round trip must not merge them
-_ANISO = [(1.0, 2.0), (0.5, 0.1), (0.05, 0.3), (2.0, 1.0), (0.05, 0.050004), (1.0, 1.00001), (2.0, 2.0000003), (0.1000002, 0.1)]
+_ANISO = [(1.0, 2.0), (0.5, 0.1), (0.05, 0.3), (2.0, 1.0), (0.05, 0.050004), (1.0, 1.00001), (2.0, 2.0000003), (0.1000002, 0.1), (1.0 / 3.0, 0.1), (0.7 / 9.0, 1.0 / 7.0)]
 _ORIGINS = [(0.0, 0.0), (1.0, -3.0)]
 
 
